@@ -81,10 +81,20 @@ impl<T> HostMatcher<T> {
             !matcher.is_empty()
         });
 
+        // retain takes a `Fn` closure, use a cell to get the removed route out of it
+        let removed_in_regex = std::cell::RefCell::new(None);
+
         self.regex_tree_rule.retain(&|_, matcher| {
-            matcher.remove(id);
+            if let Some(value) = matcher.remove(id) {
+                removed_in_regex.replace(Some(value));
+            }
+
             !matcher.is_empty()
         });
+
+        if removed.is_none() {
+            removed = removed_in_regex.into_inner();
+        }
 
         if removed.is_some() {
             self.count -= 1;
